@@ -188,7 +188,8 @@ impl Engine {
                 let p = if mask & 1 != 0 { "p" } else { "" };
                 let q = if mask & 2 != 0 { "q" } else { "" };
                 let r = if mask & 4 != 0 { ":r" } else { "" };
-                v.push((format!("sl{}{}", mask, if opt { "o" } else { "" }), format!("{{{{ x{}{}:{}{}] }}}}", if opt { "?[" } else { "[" }, p, q, r)));
+                // the optional form is consumed by `default`, which tolerates undefined: an error must stay an error
+                v.push((format!("sl{}{}", mask, if opt { "o" } else { "" }), format!("{{{{ x{}{}:{}{}]{} }}}}", if opt { "?[" } else { "[" }, p, q, r, if opt { " | default(value=\"~undefined~\")" } else { "" })));
             }
         }
         // a slice with two parameters but an explicit empty third position is not valid syntax; mask 4 alone = `x[::r]`
@@ -245,6 +246,17 @@ pub fn check_slice(x: &Seq, p: &P, q: &P, r: &P, l: &mut Local) -> Check {
     })();
     let got = ENGINE.with(|e| e.run(&format!("sl{}", mask), x, &[("p", p), ("q", q), ("r", r)]));
     l.eval();
+    // `?[` only changes what happens on a none / undefined base: on a defined sequence it is the same operation
+    let got_opt = ENGINE.with(|e| e.run(&format!("sl{}o", mask), x, &[("p", p), ("q", q), ("r", r)]));
+    l.eval();
+    let same = match (&got, &got_opt) {
+        (Out::Ok(a), Out::Ok(b)) => a == b,
+        (Out::Err(_), Out::Err(_)) => true,
+        _ => false,
+    };
+    if !same {
+        return Err(Fail::new("C14/optional-slice-differs", format!("{:?}: x[..] gives {:?} but x?[..] gives {:?} (p={:?} q={:?} r={:?})", x, got, got_opt, p, q, r), json!({"kind": "slice", "x": x.json(), "p": p.json(), "q": q.json(), "r": r.json()})));
+    }
     l.label(if exp.is_ok() { "slice:ok" } else { "slice:err" });
     if let Seq::Str(s) = x {
         if s.len() != s.chars().count() {
